@@ -110,6 +110,21 @@ Theorem C04_vis_step :
 Proof. exact @vis_step_proof. Qed.
 Print Assumptions C04_vis_step.
 
+(* the old value a writer will report (LoadAndStore, Compute, LoadAndDelete) -- or the absence that makes
+   its insert an insert -- is what readers can see at the moment of its linearization store *)
+Theorem C04_writer_sees_vis :
+  forall (K V : Type) (eqd : forall a b : K, {a = b} + {a <> b}) hash idx tag nslots seeds g sh probe nstripes minlen grow_only,
+    xhyps4 idx nstripes minlen nslots probe -> forall len0 todo sched t, 0 < len0 ->
+    let s := fst (@xrun K V eqd hash idx tag nslots seeds g sh probe nstripes minlen grow_only (xinit nslots seeds nstripes len0 todo) sched) in
+    match g_pc s t with
+    | PW_U1 cx tab _ old _ | PW_D1 cx tab _ old => vis hash idx (@tab_at K V nslots nstripes s tab) (cx_k cx) old
+    | PW_I1 cx tab _ _ | PW_I2 cx tab _ _ | PW_N1 cx tab _ | PW_Sum cx tab _ _ =>
+        forall v, ~ vis hash idx (@tab_at K V nslots nstripes s tab) (cx_k cx) v
+    | _ => True
+    end.
+Proof. exact @writer_sees_vis_proof. Qed.
+Print Assumptions C04_writer_sees_vis.
+
 Theorem C04_vis_functional :
   forall (K V : Type) (eqd : forall a b : K, {a = b} + {a <> b}) hash idx tag nslots seeds g sh probe nstripes minlen grow_only,
     xhyps4 idx nstripes minlen nslots probe -> forall len0 todo sched tab k v1 v2, 0 < len0 ->
